@@ -1,5 +1,6 @@
 """Two-player extended nonlocal game."""
 
+import itertools
 from collections import defaultdict
 
 import cvxpy
@@ -102,22 +103,27 @@ class ExtendedNonlocalGame:
         """
         dim_x, dim_y, alice_out, bob_out, alice_in, bob_in = self.pred_mat.shape
 
+        # Weighted predicate operators: pi(x, y) * V(a, b | x, y).
+        weighted = np.zeros(self.pred_mat.shape, dtype=complex)
+        for x_in in range(alice_in):
+            for y_in in range(bob_in):
+                weighted[:, :, :, :, x_in, y_in] = self.prob_mat[x_in, y_in] * self.pred_mat[:, :, :, :, x_in, y_in]
+
         max_unent_val = float("-inf")
-        for a_out in range(alice_out):
-            for b_out in range(bob_out):
+        # Maximize over all answer functions f : x -> a for Alice and g : y -> b for Bob.
+        for f_alice in itertools.product(range(alice_out), repeat=alice_in):
+            # For Alice's fixed f, the operator sum_x pi(x, y) V(f(x), b | x, y) for every (b, y).
+            p_alice = np.zeros([dim_x, dim_y, bob_out, bob_in], dtype=complex)
+            for x_in in range(alice_in):
+                p_alice += weighted[:, :, f_alice[x_in], :, x_in, :]
+            for g_bob in itertools.product(range(bob_out), repeat=bob_in):
                 p_win = np.zeros([dim_x, dim_y], dtype=complex)
-                for x_in in range(alice_in):
-                    for y_in in range(bob_in):
-                        p_win += self.prob_mat[x_in, y_in] * self.pred_mat[:, :, a_out, b_out, x_in, y_in]
-
-                rho = cvxpy.Variable((dim_x, dim_y), hermitian=True)
-
-                objective = cvxpy.Maximize(cvxpy.real(cvxpy.trace(p_win.conj().T @ rho)))
-
-                constraints = [cvxpy.trace(rho) == 1, rho >> 0]
-                problem = cvxpy.Problem(objective, constraints)
-                unent_val = problem.solve()
-                max_unent_val = max(max_unent_val, unent_val)
+                for y_in in range(bob_in):
+                    p_win += p_alice[:, :, g_bob[y_in], y_in]
+                # The referee's optimal state is an eigenvector of the largest eigenvalue of the
+                # Hermitian part of p_win, which is the optimum of max Re Tr(p_win^* rho) over states.
+                unent_val = np.linalg.eigvalsh((p_win + p_win.conj().T) / 2)[-1]
+                max_unent_val = max(max_unent_val, float(unent_val))
         return max_unent_val
 
     def nonsignaling_value(self) -> float:
